@@ -18,7 +18,7 @@ from sa import AnalysisError, pat
 from sa import query as Q
 from sa.model import call_name, calls_in, src, walk_no_defs
 
-from .common import WEB_HTTP, WEB_WRAPPERS, loc, need
+from .common import http_func, WEB_HTTP, WEB_WRAPPERS, loc, need
 
 MIN_OBLIGATIONS = 26
 TERMINATOR = "b'0\\r\\n\\r\\n'"
@@ -154,7 +154,7 @@ def _finish_sets(g, sock):
 
 
 def rule_response(repo, chk):
-    f = repo.func(WEB_HTTP, 'HTTP._on_response')
+    f = http_func(repo, 'HTTP._on_response')
     chk.touch(f)
     g = f.cfg()
     sock = 'sock'
@@ -281,7 +281,7 @@ def _is_chunk_frame(func, v, dv):
 
 
 def rule_stream(repo, chk):
-    f = repo.func(WEB_HTTP, 'HTTP._on_stream')
+    f = http_func(repo, 'HTTP._on_stream')
     chk.touch(f)
     g = f.cfg()
     dv = f.params[2]
@@ -452,7 +452,7 @@ def rule_shared(repo, chk):
 def rule_stream_guard(repo, chk):
     chk.rule('C15.h', 'after the header block is written nothing can fail for a reason known beforehand: the streaming branch of _on_response steps the body with '
                       'next() only if the body is an iterator (the stream flag may be stale: it is set by a file body and never reset)')
-    f = repo.func(WEB_HTTP, 'HTTP._on_response')
+    f = http_func(repo, 'HTTP._on_response')
     chk.touch(f)
     g = f.cfg()
     steps = [n for n in g.nodes if n.kind in ('stmt', 'test') and n.ast is not None and any(call_name(c) == 'next' and c.args and src(c.args[0]).endswith('.body') for c in pat.node_calls(n))]
@@ -467,7 +467,7 @@ def rule_stream_guard(repo, chk):
 def rule_version(repo, chk):
     chk.rule('C15.i', 'a response is never written in an HTTP version the server does not speak: every answer produced by _on_read for a message whose request line '
                       'was parsed has its protocol set from the server\'s version (clamped, or replaced when the major version differs) before it is fired')
-    f = repo.func(WEB_HTTP, 'HTTP._on_read')
+    f = http_func(repo, 'HTTP._on_read')
     chk.touch(f)
     g = f.cfg()
     answers = [(n, pat.event_ctor_name(e), e) for n in g.nodes if n.kind == 'stmt' for _c, _r, e in pat.fire_calls(n.ast)
@@ -475,7 +475,7 @@ def rule_version(repo, chk):
     mk_req = [n for n in g.nodes if n.kind == 'stmt' and isinstance(n.ast, ast.Assign) and isinstance(n.ast.value, ast.Call) and (call_name(n.ast.value) or '').endswith('Request')]
     parsed = [n for n in mk_req if len(n.ast.value.args) >= 5 or any('get_version' in src(a) or src(a) == 'version' for a in n.ast.value.args)]
     need(parsed, 'C15.i: _on_read never builds a Request from a parsed request line')
-    sets = [n for n in g.nodes if n.kind == 'stmt' and any(a == 'protocol' and ('self.protocol' in src(v) or 'sp' in Q.names_used(v)) for _r, a, v in pat.attr_store(n.ast))]
+    sets = [n for n in g.nodes if n.kind == 'stmt' and any(a == 'protocol' and ('self.protocol' in src(v) or any('self.protocol' in src(e_) for x_ in Q.names_used(v) for e_ in pat.local_feeds(f, x_))) for _r, a, v in pat.attr_store(n.ast))]
     same_major = pat.test_edge(lambda tt, pol: (lambda fc: fc is not None and fc[1] in ('==',) and '[0]' in fc[0] and '[0]' in fc[2])(pat.compare_fact(tt, pol)))
     n_ans = 0
     seen_names = {}
